@@ -285,6 +285,8 @@ def write_evidence(mod, prop, args, base_seed, seeds, results, good, harness, ne
             fault_fired["F6_cache_clear_runs"] += 1
         if st.get("dup_exec", 0) > 0:
             fault_fired["F7_reexecution_runs"] += 1
+        if st.get("serialised_tasks", 0) > 0:
+            fault_fired["F10_process_boundary_runs"] += 1
         if st.get("f8_delivered", 0) > 0:
             fault_fired["F8_read_error_runs"] += 1
         for k, v in (r.get("faults_fired") or {}).items():
